@@ -24,7 +24,11 @@ int vp_terminated;     /* std::terminate / std::abort reached */
 #define VP_TOK_CAP 12
 #endif
 enum { VP_T_CSTR = 1, VP_T_CHAR, VP_T_ULONG, VP_T_INT, VP_T_UINT, VP_T_PTR, VP_T_SETW, VP_T_STRING_OPAQUE, VP_T_BYTE, VP_T_BOOL };
-struct vp_tok { int kind; unsigned long v; const void *p; int fl; long w; char fi; };   /* value + the stream's flags/width/fill when it was inserted */
+#ifdef VP_TOK_FMT   /* value + the stream's flags/width/fill when it was inserted (C18 obligations only: it triples the token size) */
+struct vp_tok { int kind; unsigned long v; const void *p; int fl; long w; char fi; };
+#else
+struct vp_tok { int kind; unsigned long v; const void *p; };
+#endif
 struct vp_string { int n; int overflow; int nlit; struct vp_tok t[VP_TOK_CAP]; };
 struct vp_os { int n; int overflow; int nlit; struct vp_tok t[VP_TOK_CAP]; int flags; long width; char fill; };
 struct vp_setw { int w; };
